@@ -74,6 +74,7 @@ pub fn lookup(name: &str) -> Option<(&'static str, ScenFn)> {
         "multi" => (crate::scen_multi::MULTI_RULE, crate::scen_multi::multi as ScenFn),
         "closedinj" => (crate::scen_conn::CLOSEDINJ_RULE, crate::scen_conn::closedinj as ScenFn),
         "offpath" => (crate::scen_conn::OFFPATH_RULE, crate::scen_conn::offpath as ScenFn),
+        "progress" => (crate::scen_progress::PROGRESS_RULE, crate::scen_progress::progress as ScenFn),
         _ => return None,
     })
 }
